@@ -346,17 +346,23 @@ func (st *programState) runSaveStatement(saveStatement parser.SaveStatement) ([]
 
 	balance := st.getCachedBalance(*account, *asset)
 
+	// Do not allow negative saves
+	if amt != nil && amt.Cmp(big.NewInt(0)) == -1 {
+		return nil, NegativeAmountErr{
+			Range:  saveStatement.SentValue.GetRange(),
+			Amount: MonetaryInt(*amt),
+		}
+	}
+
+	// a balance which is already zero or negative has nothing to save
+	// (and must not be raised to zero)
+	if balance.Cmp(big.NewInt(0)) != 1 {
+		return nil, nil
+	}
+
 	if amt == nil {
 		balance.Set(big.NewInt(0))
 	} else {
-		// Do not allow negative saves
-		if amt.Cmp(big.NewInt(0)) == -1 {
-			return nil, NegativeAmountErr{
-				Range:  saveStatement.SentValue.GetRange(),
-				Amount: MonetaryInt(*amt),
-			}
-		}
-
 		// we decrease the balance by "amt"
 		balance.Sub(balance, amt)
 		// without going under 0
